@@ -17,7 +17,9 @@ def oracle_fwd(ck, b, q, bt, qt, J, x, named):
     h0a, h0b, g0a, g0b, h1a, h1b, g1a, g1b = [np.ravel(v) for v in qt]
     desc = 'DTCWTForward J=%d shape=%s filters=%s' % (J, tuple(x.shape), named)
     replay = {'oracle': 'fwd', 'J': J, 'x': arr_json(x), 'named': named, 'bt': [arr_json(np.ravel(v)) for v in bt], 'qt': [arr_json(np.ravel(v)) for v in qt]}
-    got = rt.run_impl(rt.Case('Q', 'DTCWTForward', [2, -1, 1, J, 0, 0], [h0o, h1o, h0a, h0b, h1a, h1b, x]), IMPL)
+    from .. import impl_dtcwt
+    with impl_dtcwt.named(b, q):
+        got = rt.run_impl(rt.Case('Q', 'DTCWTForward', [2, -1, 1, J, 0, 0], [h0o, h1o, h0a, h0b, h1a, h1b, x]), IMPL)
     if isinstance(got, tuple):
         ck.fail(desc + ': raises %s: %s' % (got[1], got[2]), replay); return 'raise'
     for n in range(x.shape[0]):
